@@ -154,6 +154,10 @@ impl Context {
     pub fn replace_all(&self, s: &str) -> String {
         let mut res = String::from(s);
         let mut changed;
+        // Macros that refer to themselves (directly or through each other) would be
+        // expanded for ever: give up after a number of passes no sane nesting needs,
+        // or when the line explodes
+        let mut passes = 0;
         loop {
             changed = false;
             for (i, set) in self.regex_sets.iter().enumerate() {
@@ -167,9 +171,10 @@ impl Context {
                     }
                 }
             }
-            if !changed {
+            if !changed || passes >= 100 || res.len() > (1 << 20) {
                 break;
             }
+            passes += 1;
         }
         res
     }
